@@ -4,16 +4,21 @@ EXTENDS HashTable, PList, VTrace
 cvars == <<hm, halive, ls, l>>
 CInit == HInit /\ LInit /\ CursorInit
 CountIn(s, v) == Cardinality({i \in 1..Len(s) : s[i] = v})
+(* model value 9 is mapped to the all-ones pointer by the driver: the library hands it back like any value, which the *)
+(* observer cannot tell from the documented not-found marker (-1)                                                 *)
+AllOnes == 9
+Norm(v) == IF v = AllOnes THEN -1 ELSE v
 
 TrHNew == IsEvent("hnew") /\ Consume /\ HNew /\ UNCHANGED ls
 TrHIns == IsEvent("hins") /\ Consume /\ HInsert(Ev.k, Ev.v) /\ UNCHANGED ls
 TrHRem == IsEvent("hrem") /\ Consume /\ HRemove(Ev.k) /\ UNCHANGED ls
 TrHFree == IsEvent("hfree") /\ Consume /\ HFree /\ UNCHANGED ls
 TrHObs == /\ IsEvent("hobs") /\ Consume /\ halive
-          /\ \A i \in 1..Len(Ev.look) : Ev.look[i][2] = HLookup(Ev.look[i][1])
+          /\ \A i \in 1..Len(Ev.look) : Ev.look[i][2] = Norm(HLookup(Ev.look[i][1]))
           /\ ToSet(Ev.keys) = HKeysOf /\ Len(Ev.keys) = Cardinality(HKeysOf)
           /\ Len(Ev.vals) = Cardinality(HKeysOf)
-          /\ \A v \in ToSet(Ev.vals) \cup {hm[k] : k \in DOMAIN hm} : CountIn(Ev.vals, v) = HCount(v)
+          /\ \A v \in {hm[k] : k \in DOMAIN hm} : CountIn(Ev.vals, Norm(v)) = HCount(v)
+          /\ \A x \in ToSet(Ev.vals) : \E k \in DOMAIN hm : Norm(hm[k]) = x
           /\ \A i \in 1..Len(Ev.lbv) :
                 /\ ToSet(Ev.lbv[i][2]) = HByValue(Ev.lbv[i][1]) /\ Len(Ev.lbv[i][2]) = Cardinality(HByValue(Ev.lbv[i][1]))
                 /\ ToSet(Ev.lbv[i][3]) = HByValue(Ev.lbv[i][1]) /\ Len(Ev.lbv[i][3]) = Cardinality(HByValue(Ev.lbv[i][1]))
